@@ -63,8 +63,40 @@ func (c *vmConn) waitConsumed(n int64, d time.Duration) bool {
 	return true
 }
 
-func vmNewMux(c *vmConn) *Mux {
-	return NewMux(Config{Conn: c, BufferSize: 8192, LoggerFactory: logging.NewDefaultLoggerFactory()})
+func vmNewMux(c *vmConn, g ...*vmLogGate) *Mux {
+	var lf logging.LoggerFactory = logging.NewDefaultLoggerFactory()
+	if len(g) > 0 {
+		lf = vmLoggerFactory{g: g[0]}
+	}
+
+	return NewMux(Config{Conn: c, BufferSize: 8192, LoggerFactory: lf})
+}
+
+// vmLogGate: the application's logger is called by dispatch when no endpoint matches; an armed gate keeps the
+// read loop there (for a bounded time) while another goroutine calls NewEndpoint
+type vmLogGate struct {
+	armed   atomic.Bool
+	release chan struct{}
+}
+
+type vmLoggerFactory struct{ g *vmLogGate }
+
+func (f vmLoggerFactory) NewLogger(scope string) logging.LeveledLogger {
+	return vmLogger{LeveledLogger: logging.NewDefaultLoggerFactory().NewLogger(scope), g: f.g}
+}
+
+type vmLogger struct {
+	logging.LeveledLogger
+	g *vmLogGate
+}
+
+func (l vmLogger) Warnf(string, ...any) {
+	if l.g.armed.CompareAndSwap(true, false) {
+		select {
+		case <-l.g.release:
+		case <-time.After(20 * time.Millisecond):
+		}
+	}
 }
 
 func vmMask(b []byte) int {
@@ -217,7 +249,8 @@ func vmOrderRun(t *testing.T, tr *vkTrace, bh vmBehaviour) bool {
 	}
 	verifYieldHook = gates.Hook
 	conn := newVMConn()
-	m := vmNewMux(conn)
+	logGate := &vmLogGate{release: make(chan struct{}, 1)}
+	m := vmNewMux(conn, logGate)
 	mu.Lock()
 	theMux = m
 	mu.Unlock()
@@ -291,11 +324,23 @@ func vmOrderRun(t *testing.T, tr *vkTrace, bh vmBehaviour) bool {
 			close(done)
 		}()
 		time.Sleep(300 * time.Microsecond) // NewEndpoint is now waiting for the lock (or about to)
+		// the read loop is kept once more, in the application's logger ("no endpoint for packet"), until the
+		// endpoint exists or 20 ms have passed -- wherever that call is made relative to the critical section
+		select {
+		case <-logGate.release: // a token the previous hold did not use
+		default:
+		}
+		logGate.armed.Store(true)
 		holdRelease <- struct{}{}
 		select {
 		case <-done:
 		case <-time.After(2 * time.Second):
 			return false
+		}
+		logGate.armed.Store(false)
+		select {
+		case logGate.release <- struct{}{}:
+		default:
 		}
 		tr.Emit(vkM{"ev": "created", "t": bh.ID, "d": 0, "when": "", "sig": "created(overlapping dispatch)"})
 		// the read loop finished this datagram when it asks for the next one
